@@ -4,7 +4,7 @@ from __future__ import annotations
 
 import ast
 
-from ..astutil import arg, body_wo_doc, const, inline, is_num, kwarg, returns, single_defs, unparse
+from ..astutil import square_base, arg, body_wo_doc, const, inline, is_num, kwarg, returns, single_defs, unparse
 from ..index import AnalysisError, Func, dotted, own_nodes
 from ..linform import Lin, NotLinear, eval_lin
 from ..resolve import bind_call
@@ -92,7 +92,8 @@ def _check_routine(ctx, rep, f: Func, level: str):
         try:
             for st in body:
                 if isinstance(st, ast.Assign) and len(st.targets) == 1 and isinstance(st.targets[0], ast.Name):
-                    env[st.targets[0].id] = eval_lin(st.value, env, _proj_app(level))
+                    from ..symsum import expand_calls
+                    env[st.targets[0].id] = eval_lin(expand_calls(ctx, f, st.value), env, _proj_app(level))
                 elif isinstance(st, ast.Expr):
                     continue
                 else:
@@ -147,7 +148,9 @@ def _check_routine(ctx, rep, f: Func, level: str):
             ok = False
             why.append("x starts at %s, expected convert_var_to_stacked_vector(c_sys, var, on_para_eq_constraint=on_para_eq_constraint)" % txt)
     rep.check(ok, "K2", f, "initial p, q, x", "p = q = zero object, x = input", "; ".join(why), node=loop)
-    shift = [s for s in loop.body if isinstance(s, ast.If) and s is not mi and "p_next is not None" in unparse(s.test)]
+    # the shift block is recognised by what it does (prev := next assignments), not by how its guard is spelt
+    shift = [s for s in loop.body if isinstance(s, ast.If) and s is not mi and s.body and not s.orelse
+             and all(isinstance(x, ast.Assign) and len(x.targets) == 1 and isinstance(x.targets[0], ast.Name) and isinstance(x.value, ast.Name) for x in s.body)]
     pairs = {}
     if shift:
         for s in shift[0].body:
@@ -252,7 +255,12 @@ def _check_stop_helpers(ctx, rep):
         if isinstance(c, ast.Compare) and len(c.ops) == 1:
             l, r = unparse(c.left), unparse(c.comparators[0])
             tv = [const(x.value.elts[0]) for x in t.body if isinstance(x, ast.Return) and isinstance(x.value, ast.Tuple)]
-            fv = [const(x.value.elts[0]) for x in t.orelse if isinstance(x, ast.Return) and isinstance(x.value, ast.Tuple)]
+            after = t.orelse
+            if not after:
+                # guard-clause form: the statements following the `if` are the else branch
+                blk = getattr(getattr(t, "_parent", None), "body", [])
+                after = blk[blk.index(t) + 1:] if t in blk else []
+            fv = [const(x.value.elts[0]) for x in after if isinstance(x, ast.Return) and isinstance(x.value, ast.Tuple)]
             if l == "error_value" and r == "eps_proj_physical":
                 if isinstance(c.ops[0], ast.Lt) and tv == [True] and fv == [False]:
                     ok = True
@@ -273,8 +281,8 @@ def _check_stop_helpers(ctx, rep):
             if isinstance(x, ast.BinOp) and isinstance(x.op, ast.Add):
                 squares(x.left)
                 squares(x.right)
-            elif isinstance(x, ast.BinOp) and isinstance(x.op, ast.Pow) and is_num(x.right, 2):
-                sq.append(x.left)
+            elif square_base(x) is not None:
+                sq.append(square_base(x))
             else:
                 sq.append(None)
 
